@@ -171,6 +171,23 @@ func runC07(r *ev.Run) {
 				if cls, msg := judgePV(h, &res); cls != "" {
 					r.Fail(cls, c07Case{Req: req}, "%+v: %s", req, msg)
 				}
+				// searches ending at a soft limit after every iteration (how every game move under time control ends)
+				if d == maxDepth {
+					for _, il := range res.Infos {
+						if !il.Complete || il.Nodes == 0 {
+							continue
+						}
+						q := req
+						q.SoftNodes = il.Nodes - 1
+						s.Clear()
+						rs := runSearch(s, h.B, q)
+						account(&rs)
+						if cls, msg := judgePV(h, &rs); cls != "" {
+							r.Fail("soft/"+cls, c07Case{Req: q}, "%+v: %s", q, msg)
+							break
+						}
+					}
+				}
 				// abort points on a subset: the move returned must still head the last reported line
 				if d == 3 && tt == 32000 && (item%3 == int(r.Seed%3) || r.Thorough()) {
 					for _, k := range budgetPoints(res.Nodes, ev.Pick(r, 400, 4000)) {
@@ -221,6 +238,9 @@ func runC07(r *ev.Run) {
 			req := searchReq{FEN: start.FEN, Moves: append([]string(nil), moves...), Depth: 3 + (ply+item)%3, Nodes: -1, SoftNodes: -1, TT: tt}
 			if ply%5 == 4 {
 				req.Nodes = 150 + 37*ply // some searches end by abort
+			}
+			if ply%5 == 2 {
+				req.SoftNodes = 100 + 53*ply // some end at a soft limit
 			}
 			res := runSearch(s, h.B, req)
 			account(&res)
